@@ -145,7 +145,15 @@ func TestC12(t *testing.T) {
 		}
 		tick := func() {
 			trace = append(trace, "tick")
-			sys.Tick(now)
+			// Tick runs under a watchdog: the kernel goroutine is the only consumer of the completion queue, so a Tick
+			// that blocks (e.g. on a send to a full queue) never returns and nothing is ever answered again
+			ticked := make(chan struct{})
+			go func(t int64) { sys.Tick(t); close(ticked) }(now)
+			select {
+			case <-ticked:
+			case <-time.After(5 * time.Second):
+				fail("the kernel blocked inside Tick (5 s): it is the only consumer of its queues, so every request in flight and every later one goes unanswered")
+			}
 			now++
 			if cqMax > 0 {
 				cqMax--
